@@ -28,7 +28,7 @@ RULE = ('cases = pipelines of 2-6 steps over the whole catalogue (always with >=
         'add_computed_field operation, set_type transform, validate validator, sort_rows key, finalizer callback, conditional '
         'predicate) x a step failing upstream of parallelize (N 1-3 workers, drawn schedule, scheduler shim) x source faults (iterable raising inside / beyond the 100-row sample, row of the wrong type beyond the '
         'sample) x exception class drawn from {ValueError, KeyError, custom, AssertionError, tableschema CastError, '
-        'datapackage CastError, tableschema UniqueKeyError, dataflows / tableschema / datapackage ValidationError, tableschema SourceError, OSError}, each observed through process() and '
+        'datapackage CastError, tableschema UniqueKeyError, dataflows / tableschema / datapackage ValidationError, tableschema SourceError, OSError, UnicodeDecodeError, tabulator SourceError / EncodingError, RuntimeError}, each observed through process() and '
         'results(); non-trivial: the fault fired and >=1 artefact-writing step sits after it; distinct by (case, fault)')
 ASSUMPTIONS = [
     'parallelize takes part through a dedicated fault (a step failing upstream of it), executed under the C18 scheduler shim',
@@ -39,7 +39,9 @@ BUDGET = {'quick': dict(examples=48, shards=16, seconds=80, chunk=3),
 
 KINDS = [k for k in gp.ALL_KINDS if k not in ('package_fn',)] + ['dump_to_path', 'dump_to_zip', 'stream_file', 'checkpoint'] * 2
 EXC = ['ValueError', 'KeyError', 'Custom', 'AssertionError', 'ts.CastError', 'dp.CastError', 'ts.UniqueKeyError', 'df.ValidationError',
-       'ts.ValidationError', 'dp.ValidationError', 'ts.SourceError', 'OSError', 'StopIteration']
+       'ts.ValidationError', 'dp.ValidationError', 'ts.SourceError', 'OSError', 'StopIteration',
+       # classes the table reader treats specially (UnicodeError -> its EncodingError, others -> its SourceError)
+       'UnicodeDecodeError', 'tab.SourceError', 'tab.EncodingError', 'RuntimeError']
 ARTEFACT_KINDS = ('dump_to_path', 'dump_to_zip', 'stream_file', 'checkpoint')
 
 
@@ -72,6 +74,16 @@ def make_exc(name):
         return OSError(28, 'injected')
     if name == 'StopIteration':
         return StopIteration('injected')
+    if name == 'UnicodeDecodeError':
+        return UnicodeDecodeError('utf-8', b'\xff', 0, 1, 'injected')
+    if name == 'tab.SourceError':
+        import tabulator
+        return tabulator.exceptions.SourceError('injected')
+    if name == 'tab.EncodingError':
+        import tabulator
+        return tabulator.exceptions.EncodingError('injected')
+    if name == 'RuntimeError':
+        return RuntimeError('injected')
     return dataflows.ValidationError('res', {'a': 1}, 0, None)
 
 
@@ -90,7 +102,10 @@ def cases_(draw):
         extra.append({'via': kind, 'at': draw(st.integers(0, n)), 'row': draw(st.sampled_from([0, 1, 50, 99, 100, 101, 150])),
                       'exc': draw(st.sampled_from(EXC))})
     par = [{'row': draw(st.sampled_from([0, 1, 2, 4])), 'exc': draw(st.sampled_from(EXC)), 'N': draw(st.integers(1, 3)),
-            'schedule': draw(st.lists(st.integers(0, 5), max_size=60))} for _ in range(draw(st.integers(1, 2)))]
+            'schedule': draw(st.lists(st.integers(0, 5), max_size=60)),
+            # an artefact-writing step between the failing step and parallelize, and a second resource behind the failing one
+            'mid': draw(st.sampled_from([None, 'dump_to_path', 'checkpoint'])), 'two': draw(st.booleans())}
+           for _ in range(draw(st.integers(1, 2)))]
     return {'pkg': prog['pkg'], 'steps': steps, 'exc_seed': draw(st.lists(st.sampled_from(EXC), min_size=12, max_size=12)),
             'res_pick': draw(st.integers(0, 5)), 'extra': extra, 'par': par}
 
@@ -285,8 +300,15 @@ def check(case, ctx):
                     if n_after:
                         subkeys.append('i%d%s%s%s' % (at, phase, row, mode))
     # ---- (ii) faults through callables of built-in steps, (iii) source faults
-    for x in case['extra']:
-        for mode in ('process', 'results'):
+    # source faults are enumerated for every case: exception classes the table reader treats specially x a row inside
+    # the 100-row inference sample, the first row after it, and a later one (one observation mode each)
+    src_enum = []
+    for ci, exc_name in enumerate(['ValueError', 'UnicodeDecodeError', 'tab.SourceError', 'OSError', 'ts.CastError']):
+        for ri, row in enumerate((1, 100, 150)):
+            src_enum.append({'via': 'source-raise', 'at': case['res_pick'] % (n + 1), 'row': row, 'exc': exc_name,
+                             'modes': (('process', 'results')[(ci + ri) % 2],)})
+    for x in list(case['extra']) + src_enum:
+        for mode in x.get('modes', ('process', 'results')):
             label = {'fault': x['via'], 'at': x['at'], 'row': x['row'], 'exc': x['exc'], 'program': prog}
             if x['via'] in ('source-raise', 'source-badtype'):
                 def build(f, x=x):
@@ -393,10 +415,27 @@ def run_parallelize_fault(case, ctx, mode, px, label):
             yield r
     s = vsched.Scheduler(px['schedule'])
     res = {}
+    tables = [data]
+    if px.get('two'):
+        desc = gen.descriptor_of([{'name': 'res_1', 'fields': [{'name': 'id', 'type': 'integer'}], 'rows': data},
+                                  {'name': 'res_2', 'fields': [{'name': 'id', 'type': 'integer'}], 'rows': data[:3]}])
+        tables = [data, data[:3]]
+    mid_dir = os.path.join(ctx.tmpdir(), 'mid')
+    mid, mid_file = [], None
+    if px.get('mid') == 'dump_to_path':
+        mid, mid_file = [dataflows.dump_to_path(mid_dir)], os.path.join(mid_dir, 'datapackage.json')
+    elif px.get('mid') == 'checkpoint':
+        mid, mid_file = [dataflows.checkpoint('cp', checkpoint_path=mid_dir)], os.path.join(mid_dir, 'cp', 'stream.ndjson')
+
+    def failing_first(package):
+        yield package.pkg
+        for i, rows in enumerate(package):
+            yield failing(rows) if i == 0 else rows
 
     def consumer():
         try:
-            flow = Flow(FeedStep(desc, [data]), failing, dataflows.parallelize(_par_row, num_processors=px['N']),
+            flow = Flow(FeedStep(desc, tables), failing_first, *mid,
+                        dataflows.parallelize(_par_row, num_processors=px['N']),
                         dataflows.dump_to_path(out_dir))
             if mode == 'process':
                 flow.process()
@@ -425,4 +464,7 @@ def run_parallelize_fault(case, ctx, mode, px, label):
         raise Violation('parallelize:tasks-left-running-after-upstream-error', dict(label, mode=mode, tasks=unfinished))
     if os.path.exists(os.path.join(out_dir, 'datapackage.json')):
         raise Violation('artefact-committed-after-failure:dump_to_path', dict(label, mode=mode))
+    if mid_file is not None and os.path.exists(mid_file):
+        raise Violation('artefact-committed-after-failure:%s-between-the-failing-step-and-parallelize' % px['mid'],
+                        dict(label, mode=mode, two_resources=bool(px.get('two'))))
     return True, 1
